@@ -4844,3 +4844,30 @@ impl IceTransport {
         self.inner.gatherer.sockets.lock().len()
     }
 }
+
+#[cfg(rustrtc_verif)]
+impl IceTransport {
+    /// `attach_demuxed_tcp_stream` as the shared passive TCP listener calls it for a new inbound connection.
+    pub async fn verif_attach_demuxed_tcp_stream(
+        &self,
+        stream: TcpStream,
+        peer_addr: SocketAddr,
+        listen_addr: SocketAddr,
+        first_packet: Vec<u8>,
+    ) {
+        attach_demuxed_tcp_stream(self.inner.clone(), stream, peer_addr, listen_addr, first_packet).await;
+    }
+    /// peers of the TCP streams currently registered with the gatherer, by listen / local key
+    pub fn verif_tcp_streams(&self) -> Vec<(SocketAddr, Option<SocketAddr>)> {
+        let mut v: Vec<(SocketAddr, Option<SocketAddr>)> = self
+            .inner
+            .gatherer
+            .tcp_streams
+            .lock()
+            .iter()
+            .map(|(k, w)| (*k, match w { IceSocketWrapper::TcpStream(_, _, p) => Some(*p), _ => None }))
+            .collect();
+        v.sort();
+        v
+    }
+}
